@@ -1240,10 +1240,10 @@ func (c *cpu) GetLastLevelCaches() []*Cache {
 
 	for idx := lastIndex; idx >= 0; idx-- {
 		cch := c.caches[idx]
-		caches = append(caches, cch)
 		if cch.level != lastLevel {
 			break
 		}
+		caches = append(caches, cch)
 	}
 
 	return caches
